@@ -30,7 +30,7 @@ func init() {
 		Quick:      Budget{Runs: 320, MaxEvents: 150},
 		Thorough:   Budget{Runs: 4800, MaxEvents: 400},
 		Essential:  []string{"c05.batch_checked", "c05.order_checked"},
-		BatchProbe: []string{"c05.batch_checked", "c05.batch_user_vs_pool", "c05.batch_with_several_user_orders", "c05.order_with_several_fills", "c05.multi_price_batch", "c05.dust_positive"},
+		BatchProbe: []string{"c05.batch_checked", "c05.batch_user_vs_pool", "c05.batch_with_several_user_orders", "c05.order_with_several_fills", "c05.multi_price_batch", "c05.dust_positive", "c05.carried_buy_order_filled_again", "c05.carried_buy_fill_cut_by_offer_coin"},
 		TweakCfg: func(r *Rng, cfg *Config) {
 			cfg.Knobs["order_boost"] = 2
 			cfg.Knobs["oog"] = 0
@@ -47,7 +47,7 @@ func init() {
 		Quick:      Budget{Runs: 320, MaxEvents: 150},
 		Thorough:   Budget{Runs: 4800, MaxEvents: 400},
 		Essential:  []string{"c06.deposit_checked", "c06.withdraw_checked"},
-		BatchProbe: []string{"c06.deposit_checked", "c06.withdraw_checked", "c06.deposit_checked_ranged", "c06.withdraw_checked_ranged", "c06.withdraw_checked_with_fee", "c06.deposit_partially_accepted", "c06.ranged_price_checked", "c06.immediate_deposit_checked", "c06.immediate_withdraw_checked", "c06.last_share_redeemed"},
+		BatchProbe: []string{"c06.pending_deposit_checked", "c06.pending_withdraw_checked", "c06.deposit_checked", "c06.withdraw_checked", "c06.deposit_checked_ranged", "c06.withdraw_checked_ranged", "c06.withdraw_checked_with_fee", "c06.deposit_partially_accepted", "c06.ranged_price_checked", "c06.immediate_deposit_checked", "c06.immediate_withdraw_checked", "c06.last_share_redeemed"},
 		TweakCfg: func(r *Rng, cfg *Config) {
 			cfg.Knobs["lp_boost"] = 2
 			if cfg.Knobs["n_ranged"] == 0 && r.Chance(2, 3) {
@@ -79,7 +79,7 @@ func init() {
 		Quick:      Budget{Runs: 320, MaxEvents: 150},
 		Thorough:   Budget{Runs: 4800, MaxEvents: 400},
 		Essential:  []string{"c19.epoch_checked"},
-		BatchProbe: []string{"c19.gauge_created", "c19.split_checked_with_remainder", "c19.epoch_checked", "c19.epoch_checked_with_remainder", "c19.epoch_paid_something", "c19.farmer_payout_checked", "c19.epoch_with_several_farmers", "c19.custody_checked_with_active_gauges"},
+		BatchProbe: []string{"c19.gauge_created", "c19.split_checked_with_remainder", "c19.epoch_checked", "c19.epoch_checked_with_remainder", "c19.epoch_paid_something", "c19.farmer_payout_checked", "c19.epoch_with_several_farmers", "c19.master_gauge_per_farmer_bound", "c19.master_gauge_with_several_farmers", "c19.custody_checked_with_active_gauges"},
 		TweakCfg: func(r *Rng, cfg *Config) {
 			cfg.Knobs["gauge_w"] = 6
 			cfg.Knobs["jump_w"] = 12
@@ -88,6 +88,6 @@ func init() {
 			cfg.Knobs["max_lifespan_s"] = 86400
 		},
 		Rule:   "one case = one seeded simulated run with liquidity gauges (deposit D, E epochs, D%E!=0 emphasised, D==E, E==1, master-pool flag) created by MsgCreateGauge, farmers joining/leaving/queued, oracle price moves and clock jumps of 12-80 h so that epochs trigger and are skipped; distinct = distinct digest of the (event, outcome) sequence; non-trivial = at least one triggered epoch of a funded gauge was checked",
-		Assume: append([]string{"only liquidity gauges and swap-fee gauges exist in the scenario; locker/vault/lend/stable-mint external programs are covered by their own scenarios", "per-farmer share bound is evaluated for non-master gauges funded in a denom that is in no pair; master-pool gauges are checked for epoch cap, cumulative bound and custody only"}, dexAssume...),
+		Assume: append([]string{"only liquidity gauges and swap-fee gauges exist in the scenario; locker/vault/lend/stable-mint external programs are covered by their own scenarios", "per-farmer share bound is evaluated for gauges funded in a denom that is in no pair; for master-pool gauges with the implicit child list (every other enabled pool of the app) the bound is min(value in the master pool, sum of values in the child pools) over the sum of the same quantity, values re-computed from reserves, share supply and the market module's price with +-1 unit brackets; master gauges with an explicit child list are checked for epoch cap, cumulative bound and custody only"}, dexAssume...),
 	}
 }
